@@ -184,7 +184,8 @@ def run(ctx) -> None:
   ctx.rule('R2', 'every seed / rng parameter is consumed (RNG constructor, callee seed, attribute of self)', 10)
   ctx.rule('R3', 'the benchmark chain forwards the seed at every hop', 3)
   ctx.rule('R4', 'no iteration over a set in suggestion-building code', 1)
-  ctx.import_rules('C13', {'R5'}, 'R5', 're-initialisation (restore / second run) starts from the same template: no in-place shuffle of constructor-derived state')
+  ctx.rule('R6', 'no process-wide mutable state or memoisation in the modules on the seeded path', 10)
+  ctx.import_rules('C13', {'R5', 'R3', 'R8'}, 'R5', 're-initialisation (restore / second run) starts from the same template: no in-place shuffle of constructor-derived state')
   n_sites = 0
   for f in FILES:
     mi = ctx.index.module_of_file(f)
@@ -239,6 +240,62 @@ def run(ctx) -> None:
   r2_params(ctx)
   r3_chain(ctx)
   r4_sets(ctx)
+  r6_no_process_state(ctx)
+
+
+# ----------------------------------------------------------------------- R6
+_MUT_CTORS = {'dict', 'list', 'set', 'defaultdict', 'OrderedDict', 'Counter', 'deque', 'WeakKeyDictionary', 'WeakValueDictionary'}
+_MUT_METHODS = {'append', 'extend', 'add', 'update', 'setdefault', 'pop', 'popitem', 'clear', 'insert', 'remove', 'discard', 'appendleft'}
+
+
+def r6_no_process_state(ctx) -> None:
+  """Nothing on the seeded path remembers earlier studies: no module-level container that functions mutate,
+  no `global` rebinding, no memoising decorator.  Such state makes a run depend on what else ran in the process."""
+  n_mod = 0
+  for f in FILES:
+    mi = ctx.index.module_of_file(f)
+    n_mod += 1
+    containers = {}
+    for st in mi.tree.body:
+      tgt, val = None, None
+      if isinstance(st, ast.Assign) and len(st.targets) == 1 and isinstance(st.targets[0], ast.Name):
+        tgt, val = st.targets[0].id, st.value
+      elif isinstance(st, ast.AnnAssign) and isinstance(st.target, ast.Name) and st.value is not None:
+        tgt, val = st.target.id, st.value
+      if tgt is None:
+        continue
+      if isinstance(val, (ast.Dict, ast.List, ast.Set)) or (
+          isinstance(val, ast.Call) and (dotted(val.func) or '').rsplit('.', 1)[-1] in _MUT_CTORS):
+        containers[tgt] = st
+    bad = []
+    for fn in [x for x in ast.walk(mi.tree) if isinstance(x, (ast.FunctionDef, ast.AsyncFunctionDef))]:
+      for dec in fn.decorator_list:
+        t = unparse(dec, 0)
+        if 'lru_cache' in t or t.endswith('functools.cache') or t == 'cache' or 'cached_property' in t or 'memoize' in t.lower():
+          bad.append((dec, f'`@{t}` on {fn.name}(): results are remembered across studies for the life of the process'))
+      local = {a.arg for a in fn.args.args + fn.args.kwonlyargs + fn.args.posonlyargs}
+      local |= {t.id for x in ast.walk(fn) if isinstance(x, ast.Assign) for t in x.targets if isinstance(t, ast.Name)}
+      for x in ast.walk(fn):
+        if isinstance(x, ast.Global):
+          bad.append((x, f'`global {", ".join(x.names)}` in {fn.name}(): module state is rebound at run time'))
+        name = None
+        if isinstance(x, (ast.Assign, ast.AugAssign, ast.Delete)):
+          tg = x.targets if isinstance(x, (ast.Assign, ast.Delete)) else [x.target]
+          for t in tg:
+            if isinstance(t, ast.Subscript) and isinstance(t.value, ast.Name):
+              name = t.value.id
+        if isinstance(x, ast.Call) and isinstance(x.func, ast.Attribute) and x.func.attr in _MUT_METHODS and isinstance(x.func.value, ast.Name):
+          name = x.func.value.id
+        if name is not None and name in containers and name not in local:
+          bad.append((x, f'module-level `{name}` is modified in {fn.name}() (`{unparse(x, 60)}`): what it holds depends on the studies that ran before'))
+    inst = f'{f.rsplit("/", 1)[-1]}: no process-wide mutable state'
+    if bad:
+      node, why = bad[0]
+      ctx.bad('R6', inst, node, why + ' - two runs with the same seed, problem and history can differ', construct=f'{f}:process-state', func=mi.name)
+    else:
+      ctx.ok('R6', inst, mi.tree, f'{len(containers)} module-level containers, none modified by a function; no memoising decorator')
+  if n_mod < 10:
+    raise AnalysisError('R6: module list shrank')
 
 
 def r2_params(ctx) -> None:
